@@ -462,5 +462,48 @@ func totalChild(args []string) int {
 		}
 		emit(ce)
 	}
+	// directed: the database's own words, and the pieces a NUL or an invalid byte cuts them into, as queries (a prefix that
+	// ends exactly where the odd byte sits is what a matcher that treats it as an end marker stumbles over)
+	if text == "nul" || text == "badutf8" || text == "unicode" || text == "punct" {
+		cmd, desc, kws := textsOf(text)
+		seen := map[string]bool{}
+		var probes []string
+		add := func(q string) {
+			if q != "" && !seen[q] && len(probes) < 60 {
+				seen[q] = true
+				probes = append(probes, q)
+			}
+		}
+		for _, field := range append([]string{cmd, desc}, kws...) {
+			for _, wd := range strings.Fields(field) {
+				add(wd)
+				for i := 0; i < len(wd); i++ {
+					if wd[i] == 0 || wd[i] >= 0x80 {
+						add(wd[:i])
+						add(wd[i+1:])
+						add(wd[:i+1])
+					}
+				}
+				if len(wd) > 3 {
+					add(wd[:3])
+					add(wd[:len(wd)-1])
+				}
+			}
+		}
+		for pi, q := range probes {
+			for _, entry := range []string{"suggestions", "universal", "legacyfuzzy", "recovery"} {
+				ce := &totEv{Op: "call", Shape: shape, Text: text, Query: "ownword", Opt: "fuzzy", Entry: entry, Via: via}
+				o := database.SearchOptions{Limit: 1 + pi%7, UseFuzzy: true, UseNLP: pi%2 == 0, AllPlatforms: true}
+				ce.Outcome, ce.Note, ce.MS = guarded(func() { callEntry(db, entry, q, o) })
+				if ce.Outcome != "returned" {
+					ce.Note = fmt.Sprintf("query %q: %s", q, ce.Note)
+				}
+				if len(ce.Note) > 300 {
+					ce.Note = ce.Note[:300]
+				}
+				emit(ce)
+			}
+		}
+	}
 	return 0
 }
